@@ -101,7 +101,9 @@ theorem size_write (h : Heap) (r : Nat) (v : Bits) : (h.write r v).size = h.size
 
 theorem read_push_old (h : Heap) (v : Bits) (r : Nat) (hr : r < h.size) : (h.push v).read r = h.read r := by
   simp only [push, read, size] at *
-  rw [List.getElem?_append_left hr]
+  rw [Array.getElem?_push]
+  have : r ≠ h.cells.size := by omega
+  simp [this]
 
 theorem read_push_new (h : Heap) (v : Bits) : (h.push v).read h.size = some v := by
   simp [push, read, size]
@@ -109,7 +111,7 @@ theorem read_push_new (h : Heap) (v : Bits) : (h.push v).read h.size = some v :=
 theorem read_write_other (h : Heap) (r r' : Nat) (v : Bits) (hne : r' ≠ r) :
     (h.write r' v).read r = h.read r := by
   simp only [write, read]
-  rw [List.getElem?_set_ne hne]
+  rw [Array.getElem?_setIfInBounds_ne hne]
 
 end Heap
 
